@@ -99,7 +99,8 @@ class FPV:
             if self.value == 0.0 or math.isnan(self.value):
                 # 0/0 and NaN/0 are NaN, not an infinity
                 return FPV(float("nan"), self.sort)
-            if str(self.value * o.value)[0] == "-":
+            # the sign of the quotient is the product of the signs (the product of the values is NaN for inf * 0)
+            if (math.copysign(1.0, self.value) < 0) != (math.copysign(1.0, o.value) < 0):
                 return FPV(float("-inf"), self.sort)
             return FPV(float("inf"), self.sort)
 
@@ -139,7 +140,7 @@ class FPV:
             if o.value == 0.0 or math.isnan(o.value):
                 # 0/0 and NaN/0 are NaN, not an infinity
                 return FPV(float("nan"), self.sort)
-            if str(o.value * self.value)[0] == "-":
+            if (math.copysign(1.0, o.value) < 0) != (math.copysign(1.0, self.value) < 0):
                 return FPV(float("-inf"), self.sort)
             return FPV(float("inf"), self.sort)
 
